@@ -205,7 +205,7 @@ theorem wrap_not_vers (tr : Bool) (s : Str) (h : cmpStr tr sWRAP s = true) : cmp
     rw [hne] at this
     cases this
 
-theorem find?_set_irrelevant {α} (p : α → Bool) (l : List α) (i : Nat) (a x : α) (hx : l[i]? = some x) (hpx : p x = false)
+theorem find_set_irrelevant {α} (p : α → Bool) (l : List α) (i : Nat) (a x : α) (hx : l[i]? = some x) (hpx : p x = false)
     (hpa : p a = false) : (l.set i a).find? p = l.find? p := by
   induction l generalizing i with
   | nil => simp at hx
@@ -245,7 +245,7 @@ theorem C16_vers_untouched {cfg : WriteCfg} {sd : Option F64} {o : WObj} {t : Li
       | some i =>
         simp only []
         obtain ⟨y, hy, hpy, _⟩ := findFirst_some hf
-        exact find?_set_irrelevant _ _ i _ y hy (wrap_not_vers _ _ hpy) hpa
+        exact find_set_irrelevant _ _ i _ y hy (wrap_not_vers _ _ hpy) hpa
 
 /-! ## when the refresh happens -/
 
